@@ -10,8 +10,11 @@
    (fuel only bounds the loops; no theorem below depends on its value, and none runs out of it).
    [solo bs] = a reader holding exactly bs that returns everything in one Read and then a clean EOF. *)
 From Coq Require Import NArith List Bool Arith.
-From FitV Require Import Model.Crc Model.IO Model.Header Model.Route Model.Components Model.Decode
-  Proofs.IOSim Proofs.C10IO Proofs.C10Frame Proofs.C11Cut Proofs.C10Examples.
+From FitV Require Import Model.Values Model.Crc Model.IO Model.Header Model.Route Model.Components Model.Decode
+  Spec.FitSyntax Spec.RouteSpec Gen.Consts
+  Proofs.IOSim Proofs.C10IO Proofs.C10Frame Proofs.C11Cut Proofs.C10Examples
+  Proofs.StreamDenoteDefs Proofs.StreamDenoteLift Proofs.StreamDenoteMain Proofs.StreamDenoteFrame Proofs.StreamDenoteDecode
+  Proofs.StreamDenoteWitness Proofs.C11Partial Proofs.C11PartialExamples.
 Import ListNotations.
 
 (* ---- the buffered phase, for EVERY decoder program ---- *)
@@ -164,10 +167,46 @@ Example C10_example_chained : exists cr,
   cr_err cr = None /\ length (cr_files cr) = 2 /\ rd_pos (cr_rd cr) = 50.
 Proof. exact ex_chained_concat. Qed.
 
-(* PARTIAL (said in the manifest too):
-   - file_id agreement: that the FileId DecodeHeaderAndFileID reports is the one Decode reports is NOT proved here; it
-     holds for streams with a single file_id message (with a second one Decode reports the last, the finding recorded
-     under C03) and needs the stream-level invariant of C02/C03.  The harness compares the two on every input.
-   - the theorems speak about the model; that reader.go/header.go behave as the model is established by the
-     lock-step correspondence run (bytes consumed from a counting reader, Files, header, error class) on every input
-     x partition x entry point of the harness. *)
+(* fileid_agree.  The domain is that of Decode_denote (Proofs/StreamDenoteDecode.v): a well-formed header h announcing
+   exactly the bytes of the record list rs, rs serialisable (stream_wf), beginning with the file_id definition and its
+   data record, accepted by the reference semantics (denote rs = Some ss1), of a file type with a container
+   (start_file).  Side condition [no_file_id (tl (ss_msgs ss1))]: the only file_id message of the stream is the leading
+   one.  Then DecodeHeaderAndFileID and Decode, each through any reader (any chunking, anything after the file), both
+   succeed, report the header h, and the FileId slot (slot 0 of the File) holds the same message. *)
+Theorem C10_fileid_agree : forall o g rdD fuelD rdF fuelF h rs ss1 f2 g1 extraD extraF,
+  header_wf h -> h_dsize h = N.of_nat (List.length (ser_records rs)) ->
+  starts_with_file_id rs = true -> stream_wf rs = true -> denote rs = Some ss1 ->
+  start_file h g (hd dummy_msg (ss_msgs ss1)) = Some (f2, g1) ->
+  no_file_id (List.tl (ss_msgs ss1)) = true ->
+  rd_data rdD = fit_file h rs ++ extraD -> wf rdD fuelD ->
+  rd_data rdF = fit_file h rs ++ extraF -> wf rdF fuelF ->
+  exists rD rF fD fF,
+    entry_Decode o g rdD fuelD = TDone rD /\ entry_DecodeHeaderAndFileID g rdF fuelF = TDone rF /\
+    dr_err rD = None /\ dr_err rF = None /\ dr_hdr rD = h /\ dr_hdr rF = h /\
+    dr_file rD = Some fD /\ dr_file rF = Some fF /\
+    nth 0 (f_slots fF) [] = nth 0 (f_slots fD) [] /\ f_header fF = f_header fD.
+Proof. exact fileid_agree. Qed.
+Print Assumptions C10_fileid_agree.
+
+(* the side condition is necessary: with a second file_id data record (type 4, then type 2) both calls succeed,
+   DecodeHeaderAndFileID reports the first file_id message and Decode the last one (File.add overwrites the FileId
+   field: the finding recorded under C03) *)
+Theorem C10_fileid_agree_refuted_without_side_condition :
+  exists m1 m2, slot0_of (entry_DecodeHeaderAndFileID g_init (solo two_fid_file) (solo_fuel two_fid_file)) = Some [m1] /\
+                slot0_of (entry_Decode no_opts g_init (solo two_fid_file) (solo_fuel two_fid_file)) = Some [m2] /\
+                m1 <> m2.
+Proof. exact two_file_ids_disagree. Qed.
+
+(* the domain and the side condition are satisfiable (a stream with three messages, one file_id) *)
+Example C10_example_fileid_domain :
+  header_wf ok_hdr /\ h_dsize ok_hdr = N.of_nat (List.length (ser_records ok_stream)) /\
+  starts_with_file_id ok_stream = true /\ stream_wf ok_stream = true /\
+  exists ss f2 g1, denote ok_stream = Some ss /\ start_file ok_hdr g_init (hd dummy_msg (ss_msgs ss)) = Some (f2, g1) /\
+                   no_file_id (List.tl (ss_msgs ss)) = true /\ (3 <= List.length (ss_msgs ss))%nat.
+Proof. exact ex_domain. Qed.
+
+(* No PARTIAL item is left in this file.  What remains outside Coq: the theorems speak about the model; that
+   reader.go/header.go behave as the model is established by the lock-step correspondence run (bytes consumed from a
+   counting reader, Files, header, error class) on every input x partition x entry point of the harness.
+   The reserved-bits and container side conditions of the Decode_denote domain are explained in
+   docs/notes-C02-stream.md. *)
